@@ -458,10 +458,11 @@ class digest(FieldType):
             self.__md5 = self.__md5_bin = None
             return
         try:
-            self.__md5_bin = a2b_hex(val)
-            self.__md5 = val
-            if len(self.__md5_bin) != 16:
+            md5_bin = a2b_hex(val)
+            if len(md5_bin) != 16:
                 raise TypeError("Incorrect hash length")
+            self.__md5_bin = md5_bin
+            self.__md5 = val
         except binascii.Error as e:
             raise TypeError("Invalid MD5 value {!r}, {}".format(val, e))
 
@@ -471,10 +472,11 @@ class digest(FieldType):
             self.__sha1 = self.__sha1_bin = None
             return
         try:
-            self.__sha1_bin = a2b_hex(val)
-            self.__sha1 = val
-            if len(self.__sha1_bin) != 20:
+            sha1_bin = a2b_hex(val)
+            if len(sha1_bin) != 20:
                 raise TypeError("Incorrect hash length")
+            self.__sha1_bin = sha1_bin
+            self.__sha1 = val
         except binascii.Error as e:
             raise TypeError("Invalid SHA-1 value {!r}, {}".format(val, e))
 
@@ -484,10 +486,11 @@ class digest(FieldType):
             self.__sha256 = self.__sha256_bin = None
             return
         try:
-            self.__sha256_bin = a2b_hex(val)
-            self.__sha256 = val
-            if len(self.__sha256_bin) != 32:
+            sha256_bin = a2b_hex(val)
+            if len(sha256_bin) != 32:
                 raise TypeError("Incorrect hash length")
+            self.__sha256_bin = sha256_bin
+            self.__sha256 = val
         except binascii.Error as e:
             raise TypeError("Invalid SHA-256 value {!r}, {}".format(val, e))
 
